@@ -20,7 +20,7 @@ CONSTANTS
   Points <- AllPoints
   SpanChoice <- NoSpanChoice
   SubsetCats = {0}
-  Ops = {"Subset", "QueryList"}
+  Ops = {"Subset", "QueryList", "QueryRep"}
   Others <- OthersNone
   UpdateSeqids = {}
 INVARIANT TypeOK
